@@ -268,6 +268,19 @@ func runSysXfer(x *X) {
 	if c.Intn(3, "logging-plugin") == 0 {
 		o.plugins = []config.PluginConfig{{Name: "logging"}}
 	}
+	// features that are on but have no reason to act (a circuit breaker that never sees enough failures,
+	// a rate limiter nobody comes near, passive health checks with a threshold out of reach) transform
+	// nothing: the exchange passes through their wrappers and comes out as it went in
+	if c.Intn(3, "idle-breaker") == 0 {
+		o.breaker = &config.CircuitBreakerConfig{Enabled: true, MaxRequests: 5, IntervalSeconds: 1, TimeoutSeconds: 1, FailureThreshold: 100000, SuccessThreshold: 1}
+		x.Probe("transparency-through-idle-breaker")
+	}
+	if c.Intn(4, "idle-limiter") == 0 {
+		o.limiter = &config.RateLimitConfig{Enabled: true, MaxTokens: 1000000, RefillRate: 1}
+	}
+	if c.Intn(4, "idle-passive") == 0 {
+		o.passive, o.threshold, o.window = true, 100000, 1
+	}
 	env, err := newSysEnv(x, o)
 	if err != nil {
 		panic(err)
